@@ -9,7 +9,8 @@ and (put_object) the checksum record. "Takes effect completely or not at all":
 3. a call that *answered with an error* has not replaced the destination; a call that answered OK has;
 4. the side files go with the content: if the destination is unchanged they are unchanged, if it is new they are
    what a successful call leaves (put_object: the request's metadata or none, and a new checksum record;
-   complete_multipart_upload: the upload's metadata if it has any).
+   complete_multipart_upload: the upload's metadata or none, and no checksums — an empty record or no record, never the
+   previous object's: the completed object is the one the abstract store of C18 holds, `⟨content, upload.md, {}⟩`).
 
 States are the harness's classification: destination `old|absent|dir` (= previous state) / `new` / `other`;
 side files `old|absent|blocked` (= previous state) / `new` / `other`.
@@ -47,12 +48,15 @@ structure Setup where
   /-- complete_multipart_upload: a part other than the last is below the minimum size -/
   partTooSmall : Bool
 
-/-- side files a successful call leaves -/
-def sidesAfterSuccess (s : Setup) : String × String :=
+/-- side files a successful call leaves: the metadata file, and the admissible states of the checksum record -/
+def sidesAfterSuccess (s : Setup) : String × List String :=
   (if s.hasMeta && s.op ≠ "upload_part" then "new"
-   else if s.op = "put_object" then "absent"   -- a put without metadata leaves no metadata of a previous object
+   -- an object written without metadata has none: no metadata of a previous object survives
+   else if s.op = "put_object" || s.op = "complete_multipart_upload" then "absent"
    else s.mdata0,
-   if s.op = "put_object" then "new" else s.info0)
+   if s.op = "put_object" then ["new"]
+   else if s.op = "complete_multipart_upload" then ["new", "absent"]
+   else [s.info0])
 
 /-- the drop positions before the writer has been handed anything: the body stream was never polled (put_object,
     upload_part), no part has been consumed (complete_multipart_upload). A temporary file that exists here exists
@@ -88,7 +92,7 @@ def judge (s : Setup) (o : Obs) : Option (String × String) :=
   else if o.code = "OK" ∧ o.dest ≠ "new" then
     some ("ok-but-not-stored:" ++ whereTag s o false, s!"answered OK, destination is {o.dest}")
   else if o.dest = "new" then
-    if (o.mdata, o.info) = sidesAfterSuccess s then none
+    if o.mdata = (sidesAfterSuccess s).1 && (sidesAfterSuccess s).2.contains o.info then none
     else some ("sidefiles-lag:" ++ whereTag s o false, s!"content new, metadata {o.mdata}, info {o.info}")
   else
     if (o.mdata, o.info) = (s.mdata0, s.info0) then none
